@@ -9,7 +9,7 @@
     around or wedge Head()/Start.
 
     The model (Model/Tail.v) is the CURRENT code, for which the statement is false
-    in six regions (known findings F8, F9a..F9f). Each clause is therefore proved
+    in seven regions (known findings F8, F9a..F9f). Each clause is therefore proved
     under the exact precondition that makes it true ([_partial], or an [_iff]
     that states the boundary), and the excluded region is witnessed by a
     [_refuted] theorem. Statements only; proofs are in Proofs/TailP.v.
